@@ -277,6 +277,10 @@ class Collector:
         if k == "unbound":
             self.add("DEFINED", t, facts, node, f"local `{t[1]}` read on a path where it was never assigned")
             return
+        if k == "unknown" and len(t) == 2 and isinstance(t[1], str) and t[1].startswith("name:"):
+            self.add("DEFINED", t, facts, node, f"`{t[1][5:]}` is not a local, an enclosing-function, a module-level or a builtin name "
+                                                f"(NameError when this is evaluated)")
+            return
         if k in ("lv", "la") and len(t) == 3:
             l = self.s.loops.get(t[1])
             init = l.carried.get(t[2], (None, None))[0] if l is not None else None
@@ -349,6 +353,7 @@ class Collector:
                         self.add("NOTNONE", a, facts, node, f"capture group passed to {show(fn)[:40]}")
             if fn[0] == "meth" and t[2]:
                 self.add("NOTNONE", t[2][0], facts, node, f"receiver of .{fn[1]}()")
+                self.add("ATTR", ("attr", t[2][0], fn[1]), facts, node, f"method .{fn[1]}()")
             if fn[0] == "meth" and fn[1] in ("format", "format_map") and t[2]:
                 self.add("STRFORMAT", t, facts, node)
             if fn[0] == "binop" or (fn[0] == "meth" and fn[1] == "__mod__"):
@@ -359,6 +364,7 @@ class Collector:
         if k == "attr":
             self.walk(t[1], facts, node)
             self.add("NOTNONE", t[1], facts, node, f"receiver of .{t[2]}")
+            self.add("ATTR", t, facts, node, f"attribute .{t[2]}")
             return
         if k == "cmp":
             self.walk(t[2], facts, node)
@@ -469,6 +475,74 @@ class Discharger:
                             or self.maybe_none(x[3], Obligation(ob.kind, x[3], ob.facts + ((x[1], False),), ob.func, ob.summary, ob.node))) else False
         return False
 
+    UNIVERSAL_ATTRS = {"__class__", "__dict__", "__doc__", "__module__", "__name__", "__qualname__", "__eq__", "__hash__", "__repr__",
+                       "__str__", "__init__", "__ne__", "__dataclass_fields__"}
+    OPEN_BASES = ("builtins.object", "object", "typing.Protocol", "typing.Generic", "abc.ABC")
+
+    def class_attrs(self, c) -> Optional[set]:
+        """Every attribute name instances (and the class) of c can have, or None when a base outside the package may add more."""
+        key = ("attrs", c.qual)
+        if key in self._grp:
+            return self._grp[key]
+        out = set(self.UNIVERSAL_ATTRS)
+        ok = True
+        for b in c.mro:
+            if isinstance(b, str):
+                if b in self.OPEN_BASES or b.startswith("typing."):
+                    continue
+                if b in ("enum.Enum", "enum.IntEnum"):
+                    out |= {"name", "value", "_value_", "_name_"}
+                    continue
+                if b.startswith("builtins.") and b.endswith(("Error", "Exception")):
+                    out |= {"args", "with_traceback", "add_note", "__traceback__", "__cause__", "__context__"}
+                    continue
+                ok = False
+                continue
+            out |= set(b.body_assigns) | set(b.methods) | set(b.nested)
+            for m in b.methods.values():
+                ps = m.params()
+                if not ps or m.kind == "staticmethod":
+                    continue
+                for n in ast.walk(m.node):
+                    if isinstance(n, ast.Attribute) and isinstance(n.ctx, ast.Store) and isinstance(n.value, ast.Name) and n.value.id == ps[0]:
+                        out.add(n.attr)
+        res = out if ok else None
+        self._grp[key] = res
+        return res
+
+    def discharge_attr(self, ob: Obligation) -> Optional[str]:
+        _, base, name = ob.term
+        bt = self.ctx.ev.types.type_of(base, self.fe(ob.func))
+        if bt is not None and bt[0] == "union":
+            rest = [x for x in bt[1] if x != ("none",)]
+            bt = rest[0] if len(rest) == 1 else None
+        cq = None
+        if bt is not None and bt[0] == "inst":
+            cq = bt[1]
+        elif bt is not None and bt[0] == "type" and bt[1][0] == "inst":
+            cq = bt[1][1]
+        c = self.ctx.prog.classes.get(cq) if cq else None
+        if c is None:
+            return "D17 receiver of unknown or external static type (attribute presence not decided)"
+        attrs = self.class_attrs(c)
+        if attrs is None:
+            return "D17 receiver class has a base outside the package (attribute presence not decided)"
+        # a value annotated with a base class may be an instance of any subclass
+        names = set(attrs)
+        for sub_ in self.ctx.prog.subclasses(c):
+            a2 = self.class_attrs(sub_)
+            if a2 is None:
+                return "D17 a subclass has a base outside the package"
+            if name in a2:
+                names.add(name)
+        if name in names:
+            return "D17 attribute defined by the receiver's class (field, method, class attribute or attribute stored in a method)"
+        for a, p in flatten_facts(ob.facts):
+            a = strip(a)
+            if p and a[0] == "call" and a[1] == ("builtin", "hasattr") and len(a[2]) == 2 and a[2][0] == strip(base) and a[2][1] == ("const", name):
+                return "D17 attribute presence established by a dominating hasattr"
+        return None
+
     def group_always_set(self, g) -> bool:
         R, k = g
         key = (R, k)
@@ -542,6 +616,8 @@ class Discharger:
             if ob.detail == "argument of int()" and self.try_fact(ob, "builtins.TypeError"):
                 return "D10 int() of an optional group under a TypeError handler"
             return None
+        if ob.kind == "ATTR":
+            return self.discharge_attr(ob)
         if ob.kind == "DEFINED":
             x = ob.term
             if x[0] == "la":
